@@ -12,7 +12,11 @@ NA_FILE = os.path.join(vlib.VERIF, 'not_applicable.json')
 def main():
     checks, have = [], set()
     for f in sorted(glob.glob(os.path.join(HERE, 'props', 'c[0-9]*.py'))):
-        p = importlib.import_module('props.' + os.path.basename(f)[:-3])
+        try:
+            p = importlib.import_module('props.' + os.path.basename(f)[:-3])
+            p.LEVEL_TEXT, p.LEVEL_NOTE, p.TECHNIQUE
+        except Exception as e:
+            print('skipping %s: %s' % (f, e)); continue
         if getattr(p, 'DISABLED', False): continue
         have.add(p.ID)
         checks.append({
